@@ -307,7 +307,7 @@ func (e *Engine) intrinsic(st *State, f *Frame, fn *ssa.Function, args []Value, 
 	case "strconv.AppendInt", "strconv.AppendUint", "strconv.AppendQuote", "strconv.AppendFloat", "strconv.AppendBool":
 		// append an opaque token of symbolic length (1..24 bytes) to the destination
 		e.res.Stubs[full]++
-		return e.appendOpaque(st, f, args[0].(*SliceVal), ins, ret), true
+		return e.appendOpaque(st, f, args[0].(*SliceVal), ins, ret, name, args[1:]), true
 	case "runtime.SetFinalizer", "runtime.KeepAlive", "runtime.Gosched", "runtime.GC":
 		return ret(nil), true
 	case "runtime.Caller":
@@ -349,11 +349,22 @@ func (e *Engine) newOpaqueError(st *State, hint string) Value {
 	return &IfaceVal{t: errorStringPtr(e), v: &PtrVal{obj: id}}
 }
 
-func (e *Engine) appendOpaque(st *State, f *Frame, dst *SliceVal, ins ssa.Instruction, ret func(Value) int) int {
-	e.nondetSeq++
-	n := Var(fmt.Sprintf("oplen%d", e.nondetSeq), 64)
+// appendOpaque models strconv.Append*: the token appended is an uninterpreted function of the
+// call's operands (same function + same operands => same bytes and length, 1..24 bytes), so that
+// determinism and history-independence of callers can be decided although the digits are not.
+func (e *Engine) appendOpaque(st *State, f *Frame, dst *SliceVal, ins ssa.Instruction, ret func(Value) int, key string, operands []Value) int {
+	for _, o := range operands {
+		if t, ok := o.(*Term); ok {
+			key += fmt.Sprintf("_%d", t.id)
+		} else {
+			e.nondetSeq++
+			key += fmt.Sprintf("_x%d", e.nondetSeq)
+		}
+	}
+	n := Var("toklen_"+key, 64)
 	st.assume(And(Sle(c64(1), n), Sle(n, c64(24))))
-	src := newBaseMem("optok")
+	src := opaqueTokMem(key)
+	st.lastTokOperands = operands
 	dlen := c64(0)
 	m := memZero
 	if dst.obj != 0 {
@@ -365,6 +376,17 @@ func (e *Engine) appendOpaque(st *State, f *Frame, dst *SliceVal, ins ssa.Instru
 	need := Add(dlen, n)
 	id := st.newObj(&BytesVal{mem: m, n: need}, nil, "append-opaque")
 	return ret(&SliceVal{obj: id, off: c64(0), len: need, cap: need})
+}
+
+var tokMems = map[string]*Mem{}
+
+func opaqueTokMem(key string) *Mem {
+	if m, ok := tokMems[key]; ok {
+		return m
+	}
+	m := &Mem{kind: MBase, name: "tok_" + key}
+	tokMems[key] = m
+	return m
 }
 
 func (e *Engine) bytesEqual(st *State, a, b *SliceVal) *Term {
@@ -532,6 +554,17 @@ func (e *Engine) harnessIntrinsic(st *State, f *Frame, fn *ssa.Function, name st
 			}
 		}
 		unsupp("vFmtInt: no such integer operand")
+	case "vTokOperand":
+		// operand k (from 0) of the most recent strconv.Append* call
+		k := asTerm(args[0])
+		if !k.IsConst() || int(k.k) >= len(st.lastTokOperands) {
+			unsupp("vTokOperand index")
+		}
+		t, ok := st.lastTokOperands[k.k].(*Term)
+		if !ok {
+			unsupp("vTokOperand operand")
+		}
+		return ret(Resize(t, 64, false))
 	case "vFmtArg":
 		// integer operand k of the most recent fmt.Sprintf call, as uint64
 		k := asTerm(args[0])
